@@ -7,7 +7,10 @@ From M Require MoreSpecs.
 From M Require HdrSpec.
 From M Require NlSpec.
 From M Require UnitSpec.
+From M Require HdrSound.
+From M Require UnitSound.
 From M Require DecSpec.
+From M Require HdrSound.
 From M Require HdrSpec.
 From M Require LexBounds.
 From M Require LexModel.
@@ -196,4 +199,66 @@ Theorem C13_unit_complete :
 Proof. exact (@UnitSpec.unit_complete). Qed.
 End T_unit_complete.
 Definition C13_unit_complete := @T_unit_complete.C13_unit_complete.
+
+Module T_compound_sound. Import HdrSound. Local Open Scope bool_scope. Local Open Scope Z_scope.
+Import LexModel LexBounds DecSpec MoreSpecs HdrSpec. Local Open Scope Z_scope.
+Local Open Scope Z_scope.
+Theorem C13_compound_sound :
+  forall l,
+  let r := lex_header l in
+  forall q:bool, ty (tok r) = (if q then T_COMPOUND_QUERY_HDR else T_COMPOUND_HDR) ->
+  exists lead m1 ms rest, Mnem m1 /\ Forall Mnem ms /\
+    l = header_text lead m1 ms ++ (if q then 63%N :: rest else rest) /\
+    (q = false -> hstop rest /\ starts (ischr 63%N) rest = false) /\
+    ptr (tok r) = 0 /\ len (tok r) = Z.of_nat (length (header_text lead m1 ms)) + (if q then 1 else 0) /\ disp r = len (tok r).
+Proof. exact (@HdrSound.compound_sound). Qed.
+End T_compound_sound.
+Definition C13_compound_sound := @T_compound_sound.C13_compound_sound.
+
+Module T_common_sound. Import HdrSound. Local Open Scope bool_scope. Local Open Scope Z_scope.
+Import LexModel LexBounds DecSpec MoreSpecs HdrSpec. Local Open Scope Z_scope.
+Local Open Scope Z_scope.
+Theorem C13_common_sound :
+  forall l,
+  let r := lex_header l in
+  forall q:bool, ty (tok r) = (if q then T_COMMON_QUERY_HDR else T_COMMON_HDR) ->
+  exists m rest, Mnem m /\
+    l = 42%N :: m ++ (if q then 63%N :: rest else rest) /\
+    (q = false -> mstop rest /\ starts (ischr 63%N) rest = false) /\
+    ptr (tok r) = 0 /\ len (tok r) = 1 + Z.of_nat (length m) + (if q then 1 else 0) /\ disp r = len (tok r).
+Proof. exact (@HdrSound.common_sound). Qed.
+End T_common_sound.
+Definition C13_common_sound := @T_common_sound.C13_common_sound.
+
+Module T_unit_sound_compound. Import UnitSound. Local Open Scope bool_scope. Local Open Scope Z_scope.
+Import LexModel LexBounds DecSpec MoreSpecs NumList HdrSpec HdrSound. Local Open Scope Z_scope.
+Local Open Scope Z_scope.
+Theorem C13_unit_sound_compound :
+  forall l (q:bool),
+  ty (u_hdr (detect_unit l)) = (if q then T_COMPOUND_QUERY_HDR else T_COMPOUND_HDR) ->
+  exists ws0 lead m1 ms rest, all isws ws0 /\ Mnem m1 /\ Forall Mnem ms /\
+    l = ws0 ++ header_text lead m1 ms ++ (if q then 63%N :: rest else rest) /\
+    (q = false -> hstop rest /\ starts (ischr 63%N) rest = false) /\
+    ptr (u_hdr (detect_unit l)) = Z.of_nat (length ws0) /\
+    len (u_hdr (detect_unit l)) = Z.of_nat (length (header_text lead m1 ms)) + (if q then 1 else 0) /\
+    delimited l (detect_unit l).
+Proof. exact (@UnitSound.unit_sound_compound). Qed.
+End T_unit_sound_compound.
+Definition C13_unit_sound_compound := @T_unit_sound_compound.C13_unit_sound_compound.
+
+Module T_unit_sound_common. Import UnitSound. Local Open Scope bool_scope. Local Open Scope Z_scope.
+Import LexModel LexBounds DecSpec MoreSpecs NumList HdrSpec HdrSound. Local Open Scope Z_scope.
+Local Open Scope Z_scope.
+Theorem C13_unit_sound_common :
+  forall l (q:bool),
+  ty (u_hdr (detect_unit l)) = (if q then T_COMMON_QUERY_HDR else T_COMMON_HDR) ->
+  exists ws0 m rest, all isws ws0 /\ Mnem m /\
+    l = ws0 ++ 42%N :: m ++ (if q then 63%N :: rest else rest) /\
+    (q = false -> mstop rest /\ starts (ischr 63%N) rest = false) /\
+    ptr (u_hdr (detect_unit l)) = Z.of_nat (length ws0) /\
+    len (u_hdr (detect_unit l)) = 1 + Z.of_nat (length m) + (if q then 1 else 0) /\
+    delimited l (detect_unit l).
+Proof. exact (@UnitSound.unit_sound_common). Qed.
+End T_unit_sound_common.
+Definition C13_unit_sound_common := @T_unit_sound_common.C13_unit_sound_common.
 
